@@ -72,6 +72,8 @@ def random_points(rng, n, d, style):
     if style == "dups":
         base = [[rng.randint(-20, 20) for _ in range(d)] for _ in range(max(1, n // 4))]
         return [list(rng.choice(base)) for _ in range(n)]
+    if style == "flag":       # a binary / constant column next to wider ones (cells that are constant on their split axis)
+        return [[(rng.randint(0, 1) if a == 0 else (5 if a == 1 and d > 2 else rng.randint(-300, 300))) for a in range(d)] for _ in range(n)]
     if style == "clusters":
         cs = [[rng.randint(-200, 200) for _ in range(d)] for _ in range(3)]
         return [[c + rng.randint(-15, 15) for c in rng.choice(cs)] for _ in range(n)]
@@ -81,7 +83,7 @@ def random_points(rng, n, d, style):
 def random_session(rng, big=False):
     d = rng.randint(1, 4)
     n = rng.randint(1, 60) if not big else rng.randint(50, 400)
-    style = rng.choice(["grid", "dups", "clusters", "wide"])
+    style = rng.choice(["grid", "dups", "clusters", "wide", "flag"])
     cfgp = {"ub": rng.choice([1, 2, 3, 5, 8, 20]), "lbnum": rng.choice([0, 0, 1, 1]), "lbden": rng.choice([4, 8, 2])}
     data = random_points(rng, n, d, style)
     script = [("build", data), ("plotly", 1, 0)]
